@@ -130,7 +130,8 @@ def gen(ctx):
                 if m == 'write_txt':
                     ops.append(dict(m=m, name=nm, text=r.choice(['abc', 'zwei\nzeilen', 'üñí €']), ow=r.random() < 0.5))
                 elif m == 'write_jsondict':
-                    ops.append(dict(m=m, name=nm, data=r.choice([{'k': [1, 2.5, None]}, {'ü': 'x'}, [1, 2]]), ow=r.random() < 0.5))
+                    ops.append(dict(m=m, name=nm, data=r.choice([{'k': [1, 2.5, None]}, {'ü': 'x'}, [1, 2], {'file': 'track\udcff.wav', 'été': ['é', 'half\ud83d']}]),
+                                    ow=r.random() < 0.5))
                 elif m == 'update_jsondict':
                     ops.append(dict(m=m, name=nm, data={'u': r.randrange(9)}))
                 elif m == 'delete_files':
@@ -140,6 +141,14 @@ def gen(ctx):
                 else:
                     ops.append(dict(m=m, name=nm))
             cases.append(dict(kind=kind, links=[], dirs=['sub'], files=[], ops=ops, target=None, prot=prot, user=True))
+    # JSON text that is not plain ASCII (accents, a lone surrogate): written, read back, updated, read back
+    for kind, prot in (('Array', APROT), ('RaggedArray', RPROT)):
+        nm = dict(s='tags.json')
+        data = {'file': 'track\udcff.wav', 'été': ['é', 'half\ud83d']}
+        cases.append(dict(kind=kind, links=[], dirs=['sub'], files=[], target=None, prot=prot, user=True,
+                          ops=[dict(m='write_jsondict', name=nm, data=data, ow=False), dict(m='read_jsondict', name=nm),
+                               dict(m='update_jsondict', name=nm, data={'u': 1}), dict(m='read_jsondict', name=nm),
+                               dict(m='write_jsondict', name=nm, data={'ü': 'x\udc80'}, ow=True), dict(m='read_jsondict', name=nm)]))
     return cases
 
 
